@@ -299,7 +299,8 @@ func c10HSpec(tier string) *HSpec {
 		depth = 5
 	}
 	alpha := []string{"deploy s1 h=a.example.com p=/", "rdeploy s1 n=1", "rdeploy s1 n=2", "rset s1 pct=0 allow=v", "rset s1 pct=100 allow=-", "rset s1 pct=0 allow=-", "rstop s1", "remove s1", "restart"}
-	spec := &HSpec{Prop: "C10", Name: "C10-H", Depth: depth,
+	// ExtendFailed: a rejected command (split before rollout targets exist, unknown service) must not influence what follows
+	spec := &HSpec{Prop: "C10", Name: "C10-H", Depth: depth, ExtendFailed: true,
 		Obs:     ObsSpec{Hosts: []string{"a.example.com"}, Paths: []string{"/"}, Cookies: []string{"", "v", "w"}, TLS: []bool{false}},
 		Clauses: map[string]bool{"routing": true, "target-set": true, "gate": true},
 	}
